@@ -137,7 +137,7 @@ Eval == /\ e.ev = "eval" /\ Common
 
 Collect == /\ e.ev = "collect" /\ Common /\ Pass
 
-Other == /\ e.ev \in {"end", "panic", "hang", "flush", "mutate", "note", "switch", "tick"} /\ Common /\ Pass
+Other == /\ e.ev \in {"end", "panic", "hang", "flush", "mutate", "args", "note", "switch", "tick"} /\ Common /\ Pass
 
 Next == l <= Len(Trace) /\ (Reset \/ Hdr \/ Put \/ Many \/ Del \/ DelAll \/ DelSearch \/ Reopen \/ Obs \/ Eval \/ Collect \/ Other)
 
@@ -350,6 +350,48 @@ Conf_C07 ==
                (n > 0) => ~MustRejectT(ApplyBatch(pstore, b, k * cs), SubSeq(b, k * cs + 1, Min((k + 1) * cs, n)))
          \* the chunk at which the call stopped was not one that had to be accepted
          /\ (E.c # "ok") => ~MustAcceptT(ApplyBatch(pstore, b, n), SubSeq(b, n + 1, Min(n + cs, L))))
+
+\* C14 stored values are isolated from caller memory: scribbling over an object that was passed to
+\* a write, or returned by a read, changes nothing that later reads return; two reads share no memory
+Conf_C14 ==
+  At =>
+  /\ E.ev = "obs" => ReadsOK(E, store)
+  /\ (E.ev = "mutate" /\ E.what = "share" /\ E.c = "ok") => E.before = E.after
+  /\ (E.ev = "mutate" /\ E.what = "share" /\ E.slot \in DOMAIN store) => (E.c = "ok" /\ E.before = store[E.slot])
+
+\* C18 on-disk layout: one directory named after the type, schema.json, exactly one file per stored
+\* object named <uuid><ext>[.gz] whose plain JSON content is the object (decoded independently)
+DirOK(o, S) ==
+  LET d == o.dir IN
+  /\ d.exists /\ d.schema /\ "schema_err" \notin DOMAIN d
+  /\ d.colls = <<d.want>>                               \* no other directory, the expected name
+  /\ Len(d.extra) = 0                                   \* nothing but object files and the schema
+  /\ NoDup([i \in 1..Len(d.files) |-> d.files[i][1]])
+  /\ {d.files[i][1] : i \in 1..Len(d.files)} = DOMAIN S
+  /\ \A i \in 1..Len(d.files) : /\ d.files[i][3] = "ok"
+                                 /\ d.files[i][1] \in DOMAIN S => o.recs[d.files[i][2]] = S[d.files[i][1]]
+Conf_C18 ==
+  At => ((E.ev = "obs" /\ "dir" \in DOMAIN E /\ ~hdr.cfg.async) => DirOK(E, store))
+
+\* C19 (argument part): malformed search arguments give an error, never a panic, never objects
+ArgOK(x, empty) ==
+  LET kind == x[3]  c == x[4]  n == x[5]  andc == x[6] IN
+  /\ c # "panic" /\ c \notin {"one-ok-after-error", "delete-ok-after-error", "inconsistent-err"}
+  /\ kind = "ok" => (c = "ok" /\ andc = "ok")
+  \* a malformed query never yields objects; it is an error, except that on an empty collection
+  \* the empty result is a valid result too
+  /\ kind # "ok" => (n = 0 /\ andc # "objects" /\ (c = "ok" => empty))
+  /\ (kind = "unknownfield" /\ c # "ok") => c = "unknownfield"
+  /\ (kind = "unknownop" /\ c # "ok") => c = "unknownop"
+  /\ (kind = "mistyped" /\ c # "ok") => c = "casting"
+  /\ (kind = "badkey" /\ c # "ok") => c \in {"unknownkey", "casting"}
+  /\ (kind = "badregex") => c = "badregex"
+BadRegexOK(o) ==
+  "q" \in DOMAIN o => \A i \in 1..Len(o.q) : ~WellFormedQ(o.q[i][1]) => (o.q[i][2] # "ok" /\ Len(o.q[i][3]) = 0)
+Conf_C19 ==
+  At =>
+  /\ E.ev = "args" => \A i \in 1..Len(E.res) : ArgOK(E.res[i], DOMAIN store = {})
+  /\ E.ev = "obs" => BadRegexOK(E)
 
 \* C15 hooks gate every insertion path
 HooksOK(hooks, i, o) ==
